@@ -42,7 +42,19 @@ RULE = ('Pairs (old, new) of 0..12 newline-terminated lines (thorough: occasiona
         '(optionally with replace split into d+a) or from `diff -e`.  An application case is non-trivial when the '
         'script has >= 1 command (old != new).  A rejection case (one corrupted command: bad letter, missing letter, '
         'missing number, three numbers, range on a, blanks, sign, junk suffix, non-decimal; or truncation inside a '
-        'text block at its start / middle / just before the "." / mid-line) is always non-trivial.')
+        'text block at its start / middle / just before the "." / mid-line) is always non-trivial.  '
+        'LINE-BOUNDARY CLASS (brk:*): the same pair generator with content drawn from templates that embed one of the 9 '
+        'non-LF line-boundary characters CR VT FF FS GS RS NEL LS PS in the MIDDLE of a line (a<B>b, x<B>. whose tail is a '
+        'lone ".", .<B>x / .<B> whose head is, x<B>1d / 1a<B>. that look like commands, <B> alone, doubled, two different '
+        'breaks, break followed by CR LF), in old lines and in script text blocks; plus the COMPLETE matrix 9 characters '
+        'x 14 templates x 19 placements (append at 0 / middle / end, change of one line / of a range / of everything, '
+        'delete of / next to such a line, empty old, empty new, two such lines in one block); each as str and as bytes '
+        '(UTF-8, and Latin-1 when every code point is < 256 so that NEL is the raw byte 0x85), through list, iterator, '
+        'in-memory file, and on-disk file objects (text mode newline="" or "\\n", binary mode); `diff -e` scripts over the '
+        'same content; truncations and corrupted commands of such scripts; commands with a break character before / '
+        'inside / after them or preceded by "x<B>" (break-in-command).  MULTI-BLOCK TRUNCATION (reject:trunc-multi:*): '
+        'scripts built to have >= 3 text blocks (3..5 separated hunks) cut inside the first, a middle and the LAST text '
+        'block, each at block start / mid-block / before the "." / mid-line.')
 ASSUMPTIONS = ['vp.models.edscript (script deriver + strict reference interpreter) is right; every script is self-checked '
                'against the reference interpreter before use and `diff -e` (GNU diffutils) is a second script source',
                'domain: every line ends in exactly one newline and no content line is a lone "." (ed cannot carry either; '
@@ -50,7 +62,22 @@ ASSUMPTIONS = ['vp.models.edscript (script deriver + strict reference interprete
                'malformed = syntactically corrupted command line or text block cut before its "."; semantically odd but '
                'well-formed commands (0d, reversed or out-of-range addresses, non-ASCII digits) are outside the oracle',
                'only "raises ValueError" is demanded for malformed scripts, not that the list is left untouched '
-               '(patches are applied lazily while the script is read)']
+               '(patches are applied lazily while the script is read)',
+               'line-boundary class: a line is whatever ends in the single final "\\n"; CR VT FF FS GS RS NEL LS PS inside '
+               'it are ordinary content, so only ".\\n" (or "." at end of stream) terminates a block and the result is '
+               'compared list element by list element',
+               'file-object sources must hand the library the script lines unchanged: in-memory and on-disk text files are '
+               'opened with newline="" when no script line contains CR and with newline="\\n" otherwise (newline="" and '
+               'newline=None cut a line at a bare CR while READING, so that form cannot carry an embedded CR as one '
+               'element; neither setting translates anything); bytes use BytesIO / binary mode.  Every file source is '
+               'read back once by the harness first - if it does not reproduce the script lines exactly the case falls '
+               'back to the iterator source (counter src:file-cannot-carry, expected 0)',
+               'Latin-1 bytes cases are only built from content whose code points are all < 256; on-disk text files are '
+               'always UTF-8',
+               'a command line with a line-boundary character before, inside or after the "N[,M]letter" text is a '
+               'syntactically corrupted command (same footing as the blanks / junk-suffix classes)',
+               '`diff -e` (run with LC_ALL=C) is only believed where its script passes the reference-interpreter '
+               'self-check; a refused script makes the run INCONCLUSIVE, never a violation']
 ANCHORS = ['debian.debian_support:patches_from_ed_script', 'debian.debian_support:patch_lines']
 MUST_REACH = list(ANCHORS)
 
@@ -83,6 +110,15 @@ DIFFE_FLOOR = {'quick': 1500, 'thorough': 100000}      # only demanded when `dif
 ALPHA = ['a', 'b', 'c', '', 'x y', '..', '. ', ' .', '.x', '...', '1a', '2,3d', 'd', '0a', '3c', '1,2c', 'a.',
          'é', '١a', '\t', 'x\r', '.\r', 's/.//', 'w', 'q']
 SRC = ('list', 'iter', 'file')
+SRC_BRK = ('list', 'iter', 'file', 'disk')
+# str.splitlines() boundaries other than LF (bytes.splitlines() only knows CR; VT and FF are the bytes a
+# "whitespace" / universal-newline shortcut would also touch)
+BREAKS = ['\r', '\x0b', '\x0c', '\x1c', '\x1d', '\x1e', '\x85', '\u2028', '\u2029']
+BREAKSET = frozenset(BREAKS)
+# {B} = the break character, {C} = a second (different) one, {U} = unique id
+BRK_TEMPLATES = ['a{B}b', 'x{B}.', '{B}.', '.{B}x', '.{B}', '.{B}.', '{B}', '{B}{B}', 'x{B}1d', '1a{B}.', '2,3c{B}y',
+                 'p{B}q{C}r', 'x{B}\r', '{B}x']
+BRK_TEMPLATES_W = BRK_TEMPLATES + ['a{B}b', 'x{B}.', 'x{B}.', 'N{U}{B}b', 'N{U}{B}.', 'N{U}{B}b{C}.', '.{B}N{U}']
 # anything printable that is not a/c/d, not a digit (that would be 'missing letter'), not ',' and not blank
 BAD_LETTERS = [ch for ch in map(chr, range(33, 127)) if ch not in 'acd,' and not ch.isdigit()]
 
@@ -109,7 +145,37 @@ def _pos(r, n):
     return r.randint(0, n)
 
 
-def gen_pair(r, thorough=False):
+_content_plain = _content
+
+
+def brk_line(r, uid=None, tpl=None, b=None):
+    """One content line with a non-LF line-boundary character in it."""
+    b = b or r.choice(BREAKS)
+    c = r.choice([x for x in BREAKS if x != b])
+    tpl = tpl or r.choice(BRK_TEMPLATES_W)
+    if '{U}' in tpl:
+        if uid is None:
+            tpl = tpl.replace('N{U}', 'x')
+        else:
+            uid[0] += 1
+            tpl = tpl.replace('{U}', str(uid[0]))
+    return tpl.replace('{B}', b).replace('{C}', c) + '\n'
+
+
+def _content_brk(r, uid):
+    return brk_line(r, uid) if r.random() < 0.6 else _content(r, uid)
+
+
+def _old_brk(r):
+    return brk_line(r) if r.random() < 0.5 else r.choice(ALPHA) + '\n'
+
+
+def _old_plain(r):
+    return r.choice(ALPHA) + '\n'
+
+
+def gen_pair(r, thorough=False, brk=False):
+    _content, _oldline = (_content_brk, _old_brk) if brk else (_content_plain, _old_plain)
     uid = [0]
     n = r.choice([0, 1, 1, 2, 2, 3, 3, 4, 5, 6, 8, 10, 12])
     if thorough and r.random() < 0.03:
@@ -117,7 +183,7 @@ def gen_pair(r, thorough=False):
     if r.random() < 0.5:
         old = ['L%d\n' % i for i in range(1, n + 1)]
     else:
-        old = [r.choice(ALPHA) + '\n' for _ in range(n)]
+        old = [_oldline(r) for _ in range(n)]
     k = r.random()
     if k < 0.05:
         return old, []
@@ -126,7 +192,7 @@ def gen_pair(r, thorough=False):
     if k < 0.15:
         return old, [_content(r, uid) for _ in range(r.randint(1, 6))]       # unrelated / full replacement
     if k < 0.20:
-        return old, [r.choice(ALPHA) + '\n' for _ in range(r.randint(0, 8))]  # partly overlapping by chance
+        return old, [_oldline(r) for _ in range(r.randint(0, 8))]             # partly overlapping by chance
     new = list(old)
     for _ in range(r.choice([0, 1, 1, 1, 2, 2, 3, 4])):
         op = r.choice('iidrr')
@@ -155,7 +221,64 @@ def enum_pairs():
                 yield old, list(new)
 
 
-def corrupt(r, script, blocks):
+def enum_brk_pairs():
+    """Complete matrix: break character x template x placement of the resulting line X (and a second such line Y)
+    relative to three plain lines."""
+    base = ['1\n', '2\n', '3\n']
+    for bi, b in enumerate(BREAKS):
+        c = BREAKS[(bi + 1) % len(BREAKS)]
+        for ti, tpl in enumerate(BRK_TEMPLATES):
+            x = tpl.replace('{B}', b).replace('{C}', c) + '\n'
+            y = BRK_TEMPLATES[(ti + 1) % len(BRK_TEMPLATES)].replace('{B}', b).replace('{C}', c) + '\n'
+            if y == x:
+                y = 'y' + x
+            for p in range(4):                                       # append at 0 / middle / end
+                yield base, base[:p] + [x] + base[p:]
+            for p in range(3):                                       # change one line
+                yield base, base[:p] + [x] + base[p + 1:]
+            yield base, [x]                                          # change everything
+            yield base, [base[0], x, y]                              # change a range, two such lines in one block
+            yield base, [x, 'k\n', y]                                # two blocks (or one), first and last line
+            for p in range(3):                                       # such a line is deleted
+                yield base[:p] + [x] + base[p:], base
+            yield [x, '2\n', y], [x, 'n\n', y]                       # such lines only pass through patch_lines
+            yield [x, '2\n', '3\n'], [x, '2\n', '3\n', y]            # kept in old, appended after the last line
+            yield [x], [y]
+            yield [], [x]
+            yield [x], []
+            yield [], [x, y]
+
+
+def gen_multiblock(r, brk=False):
+    """(old, new) built from 3..5 hunks separated by unique kept lines, so that the script has >= 3 text blocks
+    (the caller verifies)."""
+    content = _content_brk if brk else _content
+    uid = [0]
+    k = [0]
+
+    def kept(n):
+        out = []
+        for _ in range(n):
+            k[0] += 1
+            out.append('K%d\n' % k[0])
+        return out
+    old, new = [], []
+    for j in range(r.choice([3, 3, 3, 4, 5])):
+        keep = kept(r.randint(0 if j == 0 else 1, 3))
+        old += keep
+        new += keep
+        if r.random() < 0.6:                                         # c (one line or a range)
+            old += ['O%d.%d\n' % (j, i) for i in range(r.choice([1, 1, 2, 3]))]
+        new += [content(r, uid) for _ in range(r.choice([1, 1, 2, 3]))]
+        if r.random() < 0.15:                                        # a d command in between
+            keep = kept(1)
+            old += keep + ['D%d\n' % j]
+            new += keep
+    keep = kept(r.choice([0, 0, 1, 2]))
+    return old + keep, new + keep
+
+
+def corrupt(r, script, blocks, brk=False):
     """Corrupt exactly one command of a well-formed script.  -> (class, index, new_script) or None."""
     blk = r.choice(blocks)
     i = blk['cmd']
@@ -164,6 +287,12 @@ def corrupt(r, script, blocks):
     assert line == address + letter + '\n'
     cls = r.choice(['bad-letter', 'bad-letter', 'missing-letter', 'missing-number', 'three-numbers',
                     'range-on-append', 'range-on-append', 'blanks', 'blanks', 'sign', 'junk-suffix', 'non-decimal'])
+    if brk and r.random() < 0.5:
+        cls = 'break-in-command'
+        b = r.choice(BREAKS)
+        bad = r.choice([b + line, address + b + letter + '\n', address + letter + b + '\n', 'x' + b + line,
+                        '.' + b + line, address + letter + b + '.\n', address.replace(',', ',' + b) + b + letter + '\n',
+                        address + letter + b + line, b + '\n', address + letter + '\r' + b + '\n'])
     if cls == 'range-on-append':
         ablocks = [b for b in blocks if b['letter'] == 'a']
         if not ablocks:
@@ -198,12 +327,13 @@ def corrupt(r, script, blocks):
     return cls, i, s
 
 
-def truncations(r, script, blocks):
-    """Cuts inside one text block: (tag, cut_script)."""
+def truncations(r, script, blocks, blk=None):
+    """Cuts inside one text block (a random one unless `blk` is given): (tag, cut_script)."""
     tb = [b for b in blocks if b['letter'] != 'd']
     if not tb:
         return
-    blk = r.choice(tb)
+    if blk is None:
+        blk = r.choice(tb)
     t, d = blk['text'], blk['dot']
     yield 'at-block-start', script[:t]                 # command, then end of stream
     if d > t:
